@@ -1,7 +1,7 @@
 (* C44 — the hypotheses of the Property.v theorems are satisfiable: concrete instances. *)
 From Coq Require Import List ZArith NArith Bool Lia String.
 Import ListNotations.
-From TV Require Import Lib.Obs C44.Model C44.Run C44.Proofs1 C44.Proofs2 C44.Proofs3 C44.Proofs4 C44.Proofs5.
+From TV Require Import Lib.Obs C44.Model C44.Run C44.Proofs1 C44.Proofs2 C44.Proofs3 C44.Proofs4 C44.Proofs5 C44.Proofs6 C44.Proofs7.
 Local Open Scope Z_scope.
 
 (* "\t-0_12 " *)
@@ -77,4 +77,24 @@ Example ex_flag_banana :
   run_case ([dd [102; 108; 97; 103]%N (Some TBool) false VNone],
             [SCmd [[112]%N; [45; 45; 102; 108; 97; 103; 61; 98; 97; 110; 97; 110; 97]%N]])
   = OList [OList [OTag "Error"]; OList [ONone]].
+Proof. vm_compute. reflexivity. Qed.
+
+(* round_pos 1 10 (= float("0.1")): a valid double in the right binade within half an ulp of 1/10 *)
+Example ex_round_tenth : round_pos 1 10 = FFin 7205759403792794 (-56)
+  /\ valid_double 7205759403792794 (-56) /\ binade_ok 1 10 (-56) /\ nearest_even 1 10 7205759403792794 (-56).
+Proof.
+  split; [vm_compute; reflexivity|]. pose proof (round_pos_correct 1 10 ltac:(lia) ltac:(lia)) as H.
+  replace (round_pos 1 10) with (FFin 7205759403792794 (-56)) in H by (vm_compute; reflexivity). exact H.
+Qed.
+(* a tie goes to even: 2^53 + 1 -> 2^53 ; the overflow threshold rounds to infinity *)
+Example ex_round_tie : fl_obs (round_pos 9007199254740993 1) = fl_obs (FFin 9007199254740992 0).
+Proof. vm_compute. reflexivity. Qed.
+(* a mixed list for a multiple int option is rejected because of its one wrong element *)
+Example ex_mixed_list :
+  run_case ([dd [112]%N (Some TInt) true VNone], [SCfg [([112]%N, VList [VInt 8001; VStr [56]%N; VInt 8003])]])
+  = OList [OList [OTag "Error"]; OList [OList []]].
+Proof. vm_compute. reflexivity. Qed.
+Example ex_setattr_unknown :
+  run_case ([dd [112]%N (Some TInt) false VNone], [SSet [([113]%N, VInt 1)]])
+  = OList [OList [OTag "AttributeError"]; OList [ONone]].
 Proof. vm_compute. reflexivity. Qed.
